@@ -25,7 +25,9 @@ COLS = [1, 4, 9, 16, 25]
 ROWS = [1, 3, 6, 10]
 TEXTS = ["", "a", "hello world", "one two three four five six seven", "line1\nline2", "wide 日本語 text", "x" * 40, "tab\there"]
 KEYS = ["up", "down", "left", "right", "a", " ", "enter", "tab", "page down", "page up", "home", "end", "backspace", "delete", "Z"]
-FLOW_LEAVES = ("Text", "Edit", "Button", "CheckBox", "Divider", "ProgressBar")
+FLOW_LEAVES = ("Text", "Edit", "Button", "CheckBox", "Divider", "ProgressBar", "RadioButton", "SelectableIcon")
+_RADIO_GROUPS: dict = {}  # radio buttons of one tree share groups (reset by every run)
+_CUR_TREE = [0]  # which of the two trees (cached = 1, twin = 2) is being built / mutated
 
 
 class Node:
@@ -50,11 +52,22 @@ def build(spec: dict) -> Node:  # noqa: C901, PLR0911, PLR0912
     if t == "Button":
         return Node(spec, "flow", urwid.Button(spec.get("label", "ok")))
     if t == "CheckBox":
-        return Node(spec, "flow", urwid.CheckBox(spec.get("label", "cb"), state=spec.get("state", False)))
+        return Node(spec, "flow", urwid.CheckBox(spec.get("label", "cb"), state=spec.get("state", False), has_mixed=bool(spec.get("mixed", False))))
     if t == "Divider":
         return Node(spec, "flow", urwid.Divider(spec.get("ch", "-"), top=spec.get("top", 0), bottom=spec.get("bottom", 0)))
     if t == "ProgressBar":
         return Node(spec, "flow", urwid.ProgressBar("pn", "pc", current=spec.get("cur", 30), done=spec.get("done", 100), satt=spec.get("satt")))
+    if t == "RadioButton":
+        group = _RADIO_GROUPS.setdefault((_CUR_TREE[0], spec.get("g", 0)), [])
+        return Node(spec, "flow", urwid.RadioButton(group, spec.get("label", "rb"), state=bool(spec.get("state", False))))
+    if t == "SelectableIcon":
+        return Node(spec, "flow", urwid.SelectableIcon(spec.get("text", "icon"), cursor_position=spec.get("cp", 0)))
+    if t == "BarGraph":
+        bg = urwid.BarGraph(["bg", "b1", "b2"])
+        bg.set_data([[v] for v in spec.get("data", [1, 3, 2])], spec.get("top", 5))
+        return Node(spec, "box", bg)
+    if t == "GraphVScale":
+        return Node(spec, "box", urwid.GraphVScale([(y, str(y)) for y in spec.get("labels", [1, 3])], spec.get("top", 5)))
     if t == "SolidFill":
         return Node(spec, "box", urwid.SolidFill(spec.get("ch", "#")))
     kids = [build(k) for k in spec.get("kids", [])]
@@ -93,6 +106,8 @@ def build(spec: dict) -> Node:  # noqa: C901, PLR0911, PLR0912
         return Node(spec, "box", urwid.Frame(kids[0].w, header=kids[1].w, footer=kids[2].w, focus_part=spec.get("fp", "body")), kids)
     if t == "Overlay":
         return Node(spec, "box", urwid.Overlay(kids[0].w, kids[1].w, "center", ("relative", 60), "middle", ("relative", 60)), kids)
+    if t == "AttrWrap":
+        return Node(spec, kids[0].kind, urwid.AttrWrap(kids[0].w, spec.get("attr", "a"), spec.get("fattr", "f")), kids)
     if t == "Scrollable":
         return Node(spec, "box", urwid.Scrollable(kids[0].w), kids)
     if t == "ScrollBar":
@@ -180,6 +195,7 @@ class _Run:
 
     # ---- one operation on one tree; returns a comparable outcome ------------------------
     def apply(self, root: Node, op: dict, is_cached_tree: bool):  # noqa: C901, PLR0911, PLR0912, PLR0915
+        _CUR_TREE[0] = 1 if is_cached_tree else 2
         k = op["op"]
         if k in ("render", "rows"):
             n = node_at(root, op.get("path", []))
@@ -219,33 +235,85 @@ class _Run:
         w = n.w
         m = op.get("m", 0)
         txt = TEXTS[op.get("t", 0) % len(TEXTS)]
-        if t == "Text":
-            if m % 3 == 0:
-                w.set_text(txt)
-            elif m % 3 == 1:
-                w.set_text([("hl", txt[:3]), txt[3:]])
-            else:
-                w.set_wrap_mode(["space", "any", "clip"][op.get("t", 0) % 3])
-            return "text"
-        if t == "Edit":
+        if t in ("Text", "SelectableIcon"):
             if m % 4 == 0:
-                w.set_edit_text(txt.replace("\n", " "))
+                w.set_text(txt)
             elif m % 4 == 1:
-                w.set_caption(txt[:6])
+                w.set_text([("hl", txt[:3]), txt[3:]])
             elif m % 4 == 2:
-                w.set_edit_pos(op.get("t", 0))
+                w.set_wrap_mode(["space", "any", "clip"][op.get("t", 0) % 3])
             else:
+                w.set_align_mode(["left", "center", "right"][op.get("t", 0) % 3])
+            return "text"
+        if t == "RadioButton":
+            if m % 2:
+                w.set_label(txt[:12])
+            else:
+                w.set_state(not w.state if op.get("t", 0) % 2 else True, do_callback=False)
+            return "radio"
+        if t == "BarGraph":
+            k3 = op.get("t", 0)
+            if m % 3 == 0:
+                w.set_data([[(k3 + j) % 6] for j in range(1 + k3 % 4)], 5 + k3 % 3)
+            elif m % 3 == 1:
+                w.set_bar_width([None, 1, 2][k3 % 3])
+            else:
+                w.set_segment_attributes(["bg", f"b{k3 % 3}", "b2"])
+            return "bargraph"
+        if t == "GraphVScale":
+            k3 = op.get("t", 0)
+            w.set_scale([(1 + (k3 + j) % 4, "abcd"[(k3 + j) % 4]) for j in range(1 + k3 % 3)], 5 + m % 2)
+            return "vscale"
+        if t == "AttrWrap":
+            if m % 2:
+                w.set_attr(f"a{op.get('t', 0) % 3}")
+            else:
+                w.set_focus_attr(f"f{op.get('t', 0) % 3}")
+            return "attrwrap"
+        if t == "Filler":
+            new = build(op.get("new", {"w": "Text", "text": "filled"}))
+            if new.kind != "flow":
+                return "none"
+            w.body = new.w
+            n.kids = [new]
+            return "filler-body"
+        if t == "BoxAdapter":
+            new = build({"w": "SolidFill", "ch": "+-*"[op.get("t", 0) % 3]})
+            w.box_widget = new.w
+            n.kids = [new]
+            return "boxadapter-body"
+        if t == "Overlay":
+            w.set_overlay_parameters(["left", "center", "right"][op.get("t", 0) % 3], ("relative", [60, 40, 90][m % 3]), ["top", "middle", "bottom"][op.get("i", 0) % 3], ("relative", [60, 30, 100][op.get("t", 0) % 3]))
+            return "overlay-params"
+        if t == "Edit":
+            if m % 5 == 0:
+                w.set_edit_text(txt.replace("\n", " "))
+            elif m % 5 == 1:
+                w.set_caption(txt[:6])
+            elif m % 5 == 2:
+                w.set_edit_pos(op.get("t", 0))
+            elif m % 5 == 3:
                 w.insert_text("q")
+            else:
+                w.set_mask([None, "*", "#"][op.get("t", 0) % 3])
             return "edit"
         if t == "Button":
             w.set_label(txt[:12])
             return "button"
         if t == "CheckBox":
-            if m % 2:
+            if m % 3 == 1:
                 w.set_label(txt[:12])
+            elif m % 3 == 2 and w.has_mixed:
+                w.set_state("mixed", do_callback=False)
             else:
                 w.set_state(not w.state, do_callback=False)
             return "checkbox"
+        if t == "GridFlow" and m % 7 == 6:
+            w.cell_width = [4, 6, 9][op.get("t", 0) % 3]
+            return "cell_width"
+        if t == "ProgressBar" and m % 5 == 4:
+            w.done = [100, 1000, 7][op.get("t", 0) % 3]
+            return "progress-done"
         if t == "ProgressBar":
             if m % 2:
                 # a small step: the percentage text may stay the same while the filled part moves
@@ -383,7 +451,10 @@ class _Run:
         urwid.CanvasCache.clear()
         try:
             self.has_scrollable = '"Scrollable"' in repr(scen).replace("'", '"')
+            _RADIO_GROUPS.clear()
+            _CUR_TREE[0] = 1
             self.tree = build(scen["tree"])
+            _CUR_TREE[0] = 2
             self.twin = build(scen["tree"])
             self.pool = []
             hits0 = urwid.CanvasCache.hits
@@ -422,6 +493,7 @@ class _Run:
         finally:
             self.pool = []
             self.tree = self.twin = None
+            _RADIO_GROUPS.clear()
             urwid.CanvasCache.clear()
             gc.enable()
         return self.log.digest()
@@ -508,7 +580,11 @@ class CacheEngine(Engine):
                 if t == "Button":
                     return {"w": "Button", "label": txt()[:10]}
                 if t == "CheckBox":
-                    return {"w": "CheckBox", "label": txt()[:10], "state": rng.random() < 0.5}
+                    return {"w": "CheckBox", "label": txt()[:10], "state": rng.random() < 0.5, "mixed": rng.random() < 0.3}
+                if t == "RadioButton":
+                    return {"w": "RadioButton", "label": txt()[:10], "state": rng.random() < 0.5, "g": rng.randrange(2)}
+                if t == "SelectableIcon":
+                    return {"w": "SelectableIcon", "text": txt()[:12] or "i", "cp": rng.randrange(3)}
                 if t == "Divider":
                     return {"w": "Divider", "ch": rng.choice(["-", " ", "="]), "top": rng.randint(0, 1)}
                 done = rng.choice([100, 100, 1000, 1000, 7])
@@ -535,13 +611,17 @@ class CacheEngine(Engine):
                     pspec["kids"] = [{"w": "Text", "text": rng.choice(["", "", "ab"]), "wrap": "space", "align": "left"}]
                 return pspec
             if r < 0.84:
-                return {"w": "AttrMap", "kids": [self.gen_tree(rng, "flow", depth - 1, budget)], "attr": "a", "fattr": "f"}
+                return {"w": rng.choice(["AttrMap", "AttrMap", "AttrWrap"]), "kids": [self.gen_tree(rng, "flow", depth - 1, budget)], "attr": "a", "fattr": "f"}
             if r < 0.90:
                 return {"w": "LineBox", "kids": [self.gen_tree(rng, "flow", depth - 1, budget)], "title": rng.choice(["", "T"])}
             if r < 0.95:
                 return {"w": "WidgetPlaceholder", "kids": [self.gen_tree(rng, "flow", depth - 1, budget)]}
             return {"w": "BoxAdapter", "kids": [self.gen_tree(rng, "box", depth - 1, budget)], "h": rng.randint(1, 4)}
         r = rng.random()
+        if leaf and r < 0.07:
+            return {"w": "GraphVScale", "labels": sorted({rng.randint(1, 4) for _ in range(rng.randint(1, 3))}), "top": rng.randint(4, 6)}
+        if leaf and r < 0.15:
+            return {"w": "BarGraph", "data": [rng.randrange(6) for _ in range(rng.randint(1, 4))], "top": rng.randint(3, 6)}
         if leaf and r < 0.3:
             return {"w": "SolidFill", "ch": rng.choice("#.")}
         if r < 0.3:
